@@ -506,6 +506,41 @@ def part_reserved(_):
     return res
 
 
+def part_priority(_):
+    """whether a match advances does not depend on the priority the flow declared (also the legal bounds 0.0 and 1.0)"""
+    res = {"priority_cases": 0, "violations": []}
+    pats = [("E()", lambda e: True), ('E(p="a")', lambda e: e.get("p") == "a"), ('E(p={"k": 1})', lambda e: isinstance(e.get("p"), dict) and e["p"].get("k") == 1),
+            ('E(p=["a"])', lambda e: isinstance(e.get("p"), list) and "a" in e["p"])]
+    feeds = [{}, {"p": "a"}, {"p": "b"}, {"p": {"k": 1, "j": 2}}, {"p": {"k": 2}}, {"p": ["x", "a"]}, {"p": []}, {"p": "a", "q": 1}]
+    for prio in ("0.0", "0.5", "1.0", "$zero"):
+        for pat, ref in pats:
+            src = (f"flow main\n  $zero = 0.0\n  priority {prio}\n  match {pat}\n  send Marker()\n  match Never()\n")
+            try:
+                base = v2x.init_state(src)
+                v2x.step(base, v2x.resolve_event(base, ("start_main",)), [], v2x.UIDS.n)
+            except Exception as e:
+                res["violations"].append(("priority:program-raised", f"priority {prio}, match {pat}: {e!r}", {"engine": "C04-ref", "source": src, "event": {"type": "E"}}))
+                continue
+            n0 = v2x.UIDS.n
+            for payload in feeds:
+                st = v2x.copy_state(base)
+                ev = dict(payload, type="E")
+                v2x.step(st, ev, [], n0)
+                got = any(e["type"] == "Marker" for e in st.outgoing_events)
+                res["priority_cases"] += 1
+                if got != bool(ref(payload)):
+                    res["violations"].append((f"priority:match-decision-depends-on-priority:{'zero' if prio in ('0.0', '$zero') else prio}",
+                                              f"`priority {prio}` then `match {pat}` fed E{payload}: expected advance={bool(ref(payload))}, got {got}",
+                                              {"engine": "C04-ref", "source": src, "event": ev}))
+    seen, uniq = set(), []
+    for v in res["violations"]:
+        if v[0] not in seen:
+            seen.add(v[0])
+            uniq.append(v)
+    res["violations"] = uniq
+    return res
+
+
 def run(rep, tier):
     from vf import par
 
@@ -579,6 +614,10 @@ def run(rep, tier):
     for sig, what, rp in rn["violations"]:
         rep.violation(sig, what, rp)
     rep.set("reserved_name_cases", rn["reserved_name_cases"])
+    pp = part_priority(None)
+    for sig, what, rp in pp["violations"]:
+        rep.violation(sig, what, rp)
+    rep.set("priority_cases", pp["priority_cases"])
     fp = part_flow_params(None)
     for sig, what, rp in fp["violations"]:
         rep.violation(sig, what, rp)
